@@ -8,7 +8,6 @@ import (
 	"fmt"
 	"math/big"
 	"strings"
-	"sync/atomic"
 
 	"verifharness/lib/ev"
 
@@ -598,11 +597,6 @@ func engineSolved(circuit, assignment frontend.Circuit, field *big.Int) (err err
 	return
 }
 
-var (
-	confirmations int32 // child confirmations of the degenerate-hint finding in this process
-	replaying     bool  // TestReplay: always confirm
-)
-
 // runSW screens the case for a degenerate (non-terminating) decomposition hint
 // and then runs it (in-process, or in a killable child when flagged).
 func runSW(c SWCase) ev.Outcome {
@@ -611,15 +605,10 @@ func runSW(c SWCase) ev.Outcome {
 	}
 	if _, inDomain, _ := reference(&c); inDomain {
 		if deg, sc := degenerateScalar(&c); deg {
-			msg := fmt.Sprintf("[%s %s complete=%v] solver does not return: the halfGCDEisenstein hint (gnark-crypto eisenstein.HalfGCD) needs more than %d iterations for the in-domain scalar %s (remainder norm decreases by a constant per step from ~r)",
-				c.Curve, c.Op, c.Complete, eisensteinStepCap, sc)
-			if _, open := openFinding(SigEisenstein); open && !replaying && atomic.AddInt32(&confirmations, 1) > 1 {
-				// open known finding: confirmed once per process in a child, afterwards screened only
-				return ev.Outcome{Violation: msg + "; screened by the step-bounded re-execution"}
-			}
 			o, finished := runInChild(c)
 			if !finished {
-				return ev.Outcome{Violation: msg + fmt.Sprintf("; confirmation child killed after %s", childBudget)}
+				return ev.Outcome{Violation: fmt.Sprintf("[%s %s complete=%v] solver does not return: the halfGCDEisenstein hint (gnark-crypto eisenstein.HalfGCD) needs more than %d iterations for the in-domain scalar %s (remainder norm decreases by a constant per step from ~r); confirmation child killed after %s",
+					c.Curve, c.Op, c.Complete, eisensteinStepCap, sc, childBudget)}
 			}
 			o.Classes = append(o.Classes, "degenerate-decomposition-screened")
 			return o
